@@ -33,6 +33,8 @@ def ref_ignored(rel, pattern):
     parts = rel.split("/")
     if pattern.endswith("/**"):
         return rel.startswith(pattern[:-2])
+    if pattern.startswith("**/") and pattern.endswith("/"):
+        return pattern[3:-1] in parts[:-1]        # **/name/ = a directory of that name at any depth, the top level included
     if pattern.endswith("/"):
         return pattern[:-1] in parts[:-1]
     if pattern.startswith("**/"):
@@ -58,7 +60,7 @@ def make_h(tier):
         d2 = ctx.pick("dir2", ("sub", "build", "node_modules"))
         fname = ctx.pick("file", file_names)
         recursive = ctx.flag("recursive")
-        ig = ctx.pick("ignore_pattern", ("none", "dir1/", "build/", "*.ts", "dir1/file", "dir1/**", "**/file"))
+        ig = ctx.pick("ignore_pattern", ("none", "dir1/", "build/", "*.ts", "dir1/file", "dir1/**", "**/file", "**/dir1/", "**/dir2/"))
         if ig not in ("none", "build/", "dir1/") and d1 not in ("pkg", "build", "buildx", "xbuild", "BUILD", "node_modules", ".hidden"):
             ctx.assume(False)
         src_kind = ctx.pick("ignore_source", (".thailintignore", "config-ignore")) if ig != "none" else "none"
@@ -75,7 +77,7 @@ def make_h(tier):
                 p.parent.mkdir(parents=True, exist_ok=True)
                 p.write_text(BODY if not rel.endswith(".ts") else BODY_TS)
             pattern = {"none": None, "dir1/": d1 + "/", "build/": "build/", "*.ts": "*.ts", "dir1/file": f"{d1}/{fname}",
-                       "dir1/**": d1 + "/**", "**/file": "**/" + fname}[ig]
+                       "dir1/**": d1 + "/**", "**/file": "**/" + fname, "**/dir1/": "**/" + d1 + "/", "**/dir2/": "**/" + d2 + "/"}[ig]
             if pattern is not None:
                 if src_kind == ".thailintignore":
                     (root / ".thailintignore").write_text("# comment\n" + pattern + "\n")
